@@ -565,3 +565,136 @@ c.ens("encoding-chosen-as-ISO-9.6.6-says", lambda self, _k, trace: And(
                          "dict-differences-only": ("encoding", "StandardEncoding", (65, ps.LIT("alpha"))), "name-and-tounicode": ("encoding", "WinAnsiEncoding", None)}[_k],
     (self.unicode_map is None) == (_k != "name-and-tounicode"),
     [n.split(".")[-1] for n, b in trace if "CMapParser" in n] == (["__init__", "run"] if _k == "name-and-tounicode" else [])))
+
+
+# -- nexttoken (C14, C01): tokens come out in queue order; scanning continues until a token is queued; at the end of input a pending token is flushed by
+#    one white-space byte and the end is signalled once, on the next call -----------------------------------------------------------------------------------
+PSEOF_ = ps.PSEOF
+
+
+class _TokParser(T.Sort):
+    def fresh(self, ctx, name):
+        from pyvc.symexec import SymRaise
+        case = ctx.choose(["queued", "scan-once", "scan-twice", "eof-with-pending-token", "eof-with-nothing", "already-at-eof"], "case")
+        o = SObj(ps.PSBaseParser, {"eof": case == "already-at-eof", "_tokens": [(1, "t1"), (5, "t2")] if case == "queued" else [], "buf": b"abcdef", "charpos": 0,
+                                   "_case": case, "_log": []}, name)
+        calls = {"n": 0}
+
+        def fillbuf(I, o=o):
+            o.f["_log"].append("fillbuf")
+            if case in ("eof-with-pending-token", "eof-with-nothing"):
+                raise SymRaise(PSEOF_, "fillbuf")
+
+        def parse1(I, s, i, o=o):
+            calls["n"] += 1
+            o.f["_log"].append(("parse", bytes(s) if isinstance(s, (bytes, bytearray)) else s, i))
+            if isinstance(s, (bytes, bytearray)) and bytes(s) == b"\n":
+                if case == "eof-with-pending-token":
+                    o.f["_tokens"].append((9, "flushed"))
+                return 1
+            if case == "scan-once" or (case == "scan-twice" and calls["n"] == 2):
+                o.f["_tokens"].append((3, "scanned"))
+            return i + 2
+        o.f["fillbuf"], o.f["_parse1"] = SymFn(fillbuf, "fillbuf"), SymFn(parse1, "_parse1")
+        return o
+    def sample(self, rng):
+        return None
+    def from_model(self, ev, v):
+        return v.f["_case"]
+
+
+c = contract("pdfminer.psparser:PSBaseParser.nexttoken", props=["C14", "C01"])
+c.param("self", _TokParser())
+c.skip_cross = True
+c.inline = True
+c.mod("self.*")
+c.returns(T.Opaque("token"))
+c.may_raise(PSEOF_, lambda self: self._case in ("eof-with-nothing", "already-at-eof"))
+
+
+def _tok_ok(self, result):
+    k = self._case
+    parses = [x for x in self._log if isinstance(x, tuple)]
+    if k == "queued":
+        return tuple(result) == (1, "t1") and self._tokens == [(5, "t2")] and self._log == []
+    if k == "scan-once":
+        return tuple(result) == (3, "scanned") and self.charpos == 2 and len(parses) == 1
+    if k == "scan-twice":
+        return tuple(result) == (3, "scanned") and self.charpos == 4 and len(parses) == 2 and parses[1][2] == 2
+    if k == "eof-with-pending-token":
+        return tuple(result) == (9, "flushed") and self.eof is True and parses == [("parse", b"\n", 0)]
+    return False
+
+
+c.ens("queue-order-scan-until-a-token-flush-at-the-end", _tok_ok)
+
+
+# -- V4 security handler (C10): crypt filters by name, one filter for strings and streams or an explicit refusal, metadata left alone when not encrypted ----------
+pdoc = real_module("pdfminer.pdfdocument")
+c = contract("pdfminer.pdfdocument:PDFStandardSecurityHandlerV4.get_cfm", props=["C10"])
+c.param("self", T.Obj("pdfminer.pdfdocument:PDFStandardSecurityHandlerV4")).param("name", T.OneOf("V2", "AESV2", "AESV3", "None", "Identity"))
+c.skip_cross = True
+c.inline = True
+c.returns(T.Opaque("fn"))
+c.ens("V2-is-RC4-AESV2-is-AES128-nothing-else", lambda self, name, result: (
+    getattr(result, "name", None) == {"V2": "decrypt_rc4", "AESV2": "decrypt_aes128"}[name] if name in ("V2", "AESV2") else result is None))
+
+c = contract("pdfminer.pdfdocument:PDFStandardSecurityHandlerV4.decrypt", props=["C10"])
+c.param("self", T.Obj("pdfminer.pdfdocument:PDFStandardSecurityHandlerV4", encrypt_metadata=T.OneOf(True, False), strf=T.Const("StdCF")))
+c.param("objid", T.Int(1)).param("genno", T.Int(0)).param("data", T.Const(b"cipher")).param("attrs", T.OneOf("none", "plain-stream", "metadata-stream")).param("name", T.OneOf(None, "Identity"))
+c.skip_cross = True
+c.inline = True
+
+
+def _wire_v4(bound, ghosts):
+    calls = []
+    bound["self"].f["cfm"] = {"StdCF": SymFn(lambda I, o, g, d: (calls.append(("StdCF", o, g, d)), ("plain-of", d))[1], "StdCF"),
+                              "Identity": SymFn(lambda I, o, g, d: (calls.append(("Identity", o, g, d)), d)[1], "Identity")}
+    ghosts["_calls"] = calls
+    ghosts["_attrs"] = bound["attrs"]
+    bound["attrs"] = {"none": None, "plain-stream": {"Length": 6}, "metadata-stream": {"Type": ps.LIT("Metadata"), "Subtype": ps.LIT("XML")}}[bound["attrs"]]
+
+
+c.wire = _wire_v4
+c.returns(T.Opaque("bytes"))
+c.ens("metadata-exempt-only-when-not-encrypted-else-the-named-or-the-string-filter-with-this-objects-numbers", lambda self, objid, genno, name, result, _calls, _attrs: (
+    (result == b"cipher" and _calls == []) if (_attrs == "metadata-stream" and not self.encrypt_metadata) else
+    (len(_calls) == 1 and _calls[0][0] == (name or "StdCF") and _calls[0][1] is objid and _calls[0][2] is genno and _calls[0][3] == b"cipher"
+     and result == (b"cipher" if name == "Identity" else ("plain-of", b"cipher")))))
+
+
+class _V4Param(T.Sort):
+    CASES = ["aes", "rc4", "identity-for-both", "different-filters", "unknown-method", "undefined-filter", "metadata-flag-false"]
+    def fresh(self, ctx, name):
+        LIT = ps.LIT
+        k = ctx.choose(self.CASES, "param")
+        cf = {"StdCF": {"CFM": LIT({"aes": "AESV2", "rc4": "V2", "unknown-method": "AESV9"}.get(k, "AESV2")), "Length": 16}}
+        p = {"CF": cf, "StmF": LIT("StdCF"), "StrF": LIT("StdCF")}
+        if k == "identity-for-both":
+            p.update(StmF=LIT("Identity"), StrF=LIT("Identity"))
+        if k == "different-filters":
+            p.update(StmF=LIT("Identity"))
+        if k == "undefined-filter":
+            p.update(StmF=LIT("Other"), StrF=LIT("Other"))
+        if k == "metadata-flag-false":
+            p["EncryptMetadata"] = False
+        p.update(V=4, R=4, P=-4, O=b"o" * 32, U=b"u" * 32, Length=128)
+        V4K[0] = k
+        return p
+    def sample(self, rng):
+        return None
+    def from_model(self, ev, v):
+        return V4K[0]
+
+
+V4K = [None]
+c = contract("pdfminer.pdfdocument:PDFStandardSecurityHandlerV4.init_params", props=["C10"])
+c.param("self", T.Obj("pdfminer.pdfdocument:PDFStandardSecurityHandlerV4", param=_V4Param()))
+c.skip_cross = True
+c.inline = True
+c.mod("self.*")
+c.may_raise(pdoc.PDFEncryptionError, lambda self: V4K[0] in ("different-filters", "unknown-method", "undefined-filter"))
+c.ens("filters-resolved-by-name-128-bit-key-metadata-flag", lambda self: And(
+    self.length == 128, self.stmf == self.strf, self.strf == ("Identity" if V4K[0] == "identity-for-both" else "StdCF"),
+    sorted(self.cfm) == ["Identity", "StdCF"], getattr(self.cfm["StdCF"], "name", None) == ("decrypt_rc4" if V4K[0] == "rc4" else "decrypt_aes128"),
+    getattr(self.cfm["Identity"], "name", None) == "decrypt_identity", self.encrypt_metadata == (V4K[0] != "metadata-flag-false"), V4K[0] in ("aes", "rc4", "identity-for-both", "metadata-flag-false")))
